@@ -40,11 +40,14 @@ def Block.marker (b : Block) : UInt32 :=
 def encodeBlock (b : Block) : Bytes :=
   align128 (putU32le 16 ++ putU32le 0 ++ putU32le b.marker ++ putU32le b.data.length.toUInt32 ++ b.payload)
 
-/-- content below 2 GiB; a deflate stream shorter than the marker; the padded block fits the
-16-bit size tables -/
+/-- content below 2 GiB; a deflate stream shorter than the marker and holding at most 1 MiB (the
+game writes at most 16000 bytes per block; the library refuses a deflated block that declares
+more than 1 MiB — its guard against corrupt headers); the padded block fits the 16-bit size tables -/
 def Block.wf (b : Block) : Bool :=
   b.data.length < 2147483648 &&
-  (match b.compressed with | some c => decide (c.length < 32000) | none => true) &&
+  (match b.compressed with
+    | some c => decide (c.length < 32000) && decide (b.data.length ≤ 1048576)
+    | none => true) &&
   b.payload.length ≤ 32000
 
 def encodeBlocks (bs : List Block) : Bytes := (bs.map encodeBlock).flatten
